@@ -17,7 +17,9 @@ def one(mut):
     r = subprocess.run(["timeout", "900", "/venv/bin/python", "-m", "mdpsim.check", "--property", prop, "--tier", "quick", "--runs", os.environ.get("MUT_RUNS", "150"), "--no-shrink"], cwd="/verif", env=env, capture_output=True, text=True)
     shutil.rmtree(d, ignore_errors=True); shutil.rmtree(d + "-out", ignore_errors=True)
     v = [l for l in r.stdout.splitlines() if l.startswith("  C")][:2]
-    return name, prop, {0: "MISSED", 1: "caught", 2: "HARNESS-ERROR"}.get(r.returncode, f"rc{r.returncode}"), round(time.time() - t), v
+    has_line = any(l.startswith("VIOLATION property=") for l in r.stdout.splitlines())
+    verdict = {0: "MISSED", 1: "caught" if has_line else "rc1-without-VIOLATION-line", 2: "HARNESS-ERROR"}.get(r.returncode, f"rc{r.returncode}")
+    return name, prop, verdict, round(time.time() - t), v
 muts = [m for m in M.MUTANTS if not only or m[0] in only or m[1] in only]
 os.makedirs(BASE, exist_ok=True)
 with ThreadPoolExecutor(3) as ex:
